@@ -1,7 +1,7 @@
 (* C08 - serialization options only project the plain output.
    Model: Verif.OptProj (flat body of to_dict, parametric in the packed field values).
    Kernel theorems: C08_kernels.v; nested classes: C08_nested.v. *)
-From Coq Require Import List String ZArith Bool.
+From Coq Require Import List String ZArith Bool Sorting.Sorted Sorting.Permutation.
 From Verif Require Import OptProj OptProjProofs.
 Import ListNotations.
 Open Scope string_scope.
@@ -42,6 +42,23 @@ Theorem C08_project_actual :
     to_dict_model o fs vs = Some (project (eff_d14 o) fs vs (plain_out fs vs)).
 Proof. exact project_actual. Qed.
 Print Assumptions C08_project_actual.
+
+(* what the reference says (independent of the body): with sort_keys the rows are a permutation
+   of the plain output ordered by FIELD NAME; every emitted pair carries the unchanged value of the
+   plain output under the field's name or its alias *)
+Theorem C08_spec_sorted :
+  forall e fs vs plain, e.(e_sort) = true ->
+    exists rows, project e fs vs plain = flat_map (project_row e) rows
+                 /\ Permutation rows (combine (combine fs vs) plain)
+                 /\ Sorted (key_le prow_name) rows.
+Proof. exact project_sorted_rows. Qed.
+Print Assumptions C08_spec_sorted.
+
+Theorem C08_spec_values :
+  forall e r k v, In (k, v) (project_row e r) ->
+    v = snd (snd r) /\ (k = (fst (fst r)).(p_name) \/ (fst (fst r)).(p_alias) = Some k).
+Proof. exact project_row_values. Qed.
+Print Assumptions C08_spec_values.
 
 (* non-vacuity: the hypotheses hold for an instance on which every projection acts *)
 Definition ex_opts : opts :=
